@@ -465,4 +465,95 @@ pub(crate) mod b {
         }
         println!("BOUNDED-CASES {}", n);
     }
+
+    fn thorough() -> bool {
+        std::env::var("VERIF_TIER").map(|v| v == "thorough").unwrap_or(false)
+    }
+
+    /// C05 completeness / soundness through the real tables (bounded stand-in): drawn boxes become exactly
+    /// one rect of the drawn position, size, rounding and dashing; attaching a stub line prevents it
+    #[test]
+    fn bounded_boxes() {
+        use crate::buffer::{CellBuffer, Span};
+        let (maxw, maxh) = if thorough() { (60usize, 30usize) } else { (9, 5) };
+        let corners: [(&str, [char; 4]); 3] = [("sharp", ['+', '+', '+', '+']), ("round", ['.', '.', '\'', '\'']), ("round2", [',', '.', '`', '\''])];
+        let mut n = 0u64;
+        let mut radius_seen: Option<f32> = None;
+        for (style, c) in corners {
+            for edge in ['-', '~'] {
+                for w in 0..=maxw {
+                    for h in 0..=maxh {
+                        if style != "sharp" && w == 0 {
+                            continue; // two corner characters with no edge between them are not a box
+                        }
+                        for (dx, dy) in [(0usize, 0usize), (3, 2), (17, 5)] {
+                            for variant in ["plain", "text", "dashed_side", "stub"] {
+                                if variant == "dashed_side" && h < 3 {
+                                    continue;
+                                }
+                                if variant == "text" && (w < 2 || h < 1) {
+                                    continue;
+                                }
+                                let mut rows: Vec<String> = vec![];
+                                let e: String = std::iter::repeat(edge).take(w).collect();
+                                rows.push(format!("{}{}{}{}", " ".repeat(dx), c[0], e, c[1]));
+                                for i in 0..h {
+                                    let side = if variant == "dashed_side" && i == 1 { ':' } else { '|' };
+                                    let mut inner: String = " ".repeat(w);
+                                    if variant == "text" && i == 0 {
+                                        inner = format!("ab{}", " ".repeat(w - 2));
+                                    }
+                                    rows.push(format!("{}{}{}{}", " ".repeat(dx), side, inner, side));
+                                }
+                                let tail = if variant == "stub" { "--" } else { "" };
+                                rows.push(format!("{}{}{}{}{}", " ".repeat(dx), c[2], e, c[3], tail));
+                                let text = format!("{}{}\n", "\n".repeat(dy), rows.join("\n"));
+                                let cb = CellBuffer::from(text.as_str());
+                                let spans: Vec<Span> = Vec::<Span>::from(&cb);
+                                let mut rects = vec![];
+                                let mut others = 0;
+                                for sp in spans {
+                                    let en = sp.endorse();
+                                    for f in en.accepted {
+                                        match f.fragment {
+                                            Fragment::Rect(r) => rects.push(r),
+                                            _ => others += 1,
+                                        }
+                                    }
+                                    others += en.rejects.iter().filter(|s| !s.is_empty()).count();
+                                }
+                                let (x0, y0) = (dx as f32 + 0.5, dy as f32 * 2.0 + 1.0);
+                                let (x1, y1) = ((dx + w + 1) as f32 + 0.5, (dy + h + 1) as f32 * 2.0 + 1.0);
+                                let ok = if variant == "stub" {
+                                    // the outline continues into a stub: it is not a closed box of its own
+                                    rects.is_empty()
+                                } else {
+                                    rects.len() == 1
+                                        && rects[0].start.x == x0 && rects[0].start.y == y0 && rects[0].end.x == x1 && rects[0].end.y == y1
+                                        && !rects[0].is_filled
+                                        && rects[0].is_broken == (edge == '~' && w > 0 || variant == "dashed_side")
+                                        && (style == "sharp") == rects[0].radius.is_none()
+                                        && others == if variant == "text" { 1 } else { 0 }
+                                };
+                                if let (true, Some(r)) = (ok && variant != "stub", rects.first().and_then(|r| r.radius)) {
+                                    if r <= 0.0 || radius_seen.map_or(false, |s| s != r) {
+                                        println!("BOUNDED-WITNESS corner radius {} differs from {:?} for box {}x{}", r, radius_seen, w, h);
+                                        panic!("rounded boxes share one corner radius");
+                                    }
+                                    radius_seen = Some(r);
+                                }
+                                if !ok {
+                                    println!("BOUNDED-WITNESS box style={} edge={:?} w={} h={} offset=({},{}) variant={}: rects {:?}, {} other fragments\n{}",
+                                        style, edge, w, h, dx, dy, variant, rects, others, text);
+                                    panic!("a drawn box is exactly one matching rect");
+                                }
+                                n += 1;
+                            }
+                        }
+                    }
+                }
+            }
+        }
+        println!("BOUNDED-CASES {}", n);
+    }
 }
